@@ -308,8 +308,28 @@ static void adopt(const char* now) {
   for (int k = 0; k < MAXFD; k++)
     if (now[k] && !L[k].live && !priv[k] && !base[k]) { in_uv = 1; reg(k, "file"); in_uv = 0; }
 }
+/* every loop / handle field that holds a descriptor number must refer to an open, ledger-known descriptor */
+static void dangling(const char* now) {
+#define CHK(v, ...) do { int k_ = (v); if (k_ >= 0 && k_ < MAXFD && (!now[k_] || !L[k_].live)) { char b_[96]; snprintf(b_, sizeof b_, __VA_ARGS__); viol("DANGLING-FIELD", "%s holds descriptor number %d which is closed (a later descriptor with that number would be closed by mistake)", b_, k_); } } while (0)
+  if (loop_ok) {
+    uv__loop_internal_fields_t* lf = uv__get_internal_fields(loop);
+    CHK(loop->backend_fd, "loop.backend_fd"); CHK(loop->emfile_fd, "loop.emfile_fd"); CHK(loop->async_io_watcher.fd, "loop.async_io_watcher.fd");
+    CHK(loop->signal_pipefd[0], "loop.signal_pipefd[0]"); CHK(loop->signal_pipefd[1], "loop.signal_pipefd[1]"); CHK(loop->inotify_fd, "loop.inotify_fd");
+    CHK(lf->ctl.ringfd, "loop.ctl.ringfd");
+  }
+  for (int i = 0; i < nh; i++) {
+    if (HS[i].st != 1) continue;
+    if (HS[i].kind == K_TCP || HS[i].kind == K_PIPE || HS[i].kind == K_TTY) {
+      uv_stream_t* s = (uv_stream_t*) HS[i].h;
+      CHK(s->io_watcher.fd, "h%d.io_watcher.fd", i); CHK(s->accepted_fd, "h%d.accepted_fd", i);
+      if (s->queued_fds) { uv__stream_queued_fds_t* q = s->queued_fds; for (unsigned j = 0; j < q->offset; j++) CHK(q->fds[j], "h%d.queued_fds[%u]", i, j); }
+    } else if (HS[i].kind == K_UDP) CHK(((uv_udp_t*) HS[i].h)->io_watcher.fd, "h%d.io_watcher.fd", i);
+  }
+#undef CHK
+}
 static void monitors(int final) {
   char now[MAXFD]; if (scan_proc(now)) { viol("PROC", "cannot read /proc/self/fd"); return; }
+  dangling(now);
   char line[8192]; int n = 0; line[0] = 0;
   adopt(now);
   for (int id = 0; id < next_id; id++) {
@@ -551,7 +571,7 @@ int main(int argc, char** argv) {
       for (int j = 0; j < nf; j++) raw6(SYS_close, fds[j], 0, 0, 0, 0, 0);
       outf("ret %s", sr == 1 ? "0" : "E");
     } else if (!strcmp(op, "spawn") && nw >= 5) {
-      /* spawn <ok|missing> c0 c2 c3   with c in {i, h<n> (create pipe), f<n> (inherit user fd), -}; stdio[1] = private report pipe */
+      /* spawn <ok|missing> c0 c2 c3   with c in {i, h<n> (create pipe), f<n> (inherit user fd), s<n> (inherit stream of handle n), -}; stdio[1] = private report pipe */
       int rp[2]; RAW(SYS_pipe2, rp, O_CLOEXEC); priv[rp[0]] = priv[rp[1]] = 1;
       uv_stdio_container_t io[4]; int cnt = 3; const char* spec[4] = { w[2], NULL, w[3], w[4] };
       int bad = 0;
@@ -562,6 +582,8 @@ int main(int argc, char** argv) {
         else if (!strcmp(s, "i")) io[j].flags = UV_IGNORE;
         else if (s[0] == 'h' && live_h(hid(s), K_PIPE)) { io[j].flags = UV_CREATE_PIPE | UV_READABLE_PIPE | UV_WRITABLE_PIPE; io[j].data.stream = (uv_stream_t*) HS[hid(s)].h; }
         else if (s[0] == 'f' && kfd_of(fid(s)) >= 0) { io[j].flags = UV_INHERIT_FD; io[j].data.fd = kfd_of(fid(s)); }
+        else if (s[0] == 's' && live_h(atoi(s + 1), -1) && (HS[atoi(s + 1)].kind == K_TCP || HS[atoi(s + 1)].kind == K_PIPE || HS[atoi(s + 1)].kind == K_TTY)) {
+          io[j].flags = UV_INHERIT_STREAM; io[j].data.stream = (uv_stream_t*) HS[atoi(s + 1)].h; }
         else bad = 1;
         if (j == 3) cnt = 4;
       }
